@@ -40,9 +40,10 @@ Definition step_node (s : QueryTraversalStep) : node := match s with Symbol n =>
 Definition child (g : graph) (nx : node) (id : ident) : option node :=
   option_map e_dst (find (fun e => Nat.eqb (e_src e) nx && ident_eqb (e_lbl e) id) g).
 
-(* fn parent: source of the first incoming edge *)
+(* fn parent: source of the LAST (= oldest) incoming edge: the edge the symbol was inserted with; edges added later
+   by `export` make it visible elsewhere but do not change the scope it was defined in (92c8ba5) *)
 Definition parent (g : graph) (nx : node) : option node :=
-  option_map e_src (find (fun e => Nat.eqb (e_dst e) nx) g).
+  option_map e_src (find (fun e => Nat.eqb (e_dst e) nx) (rev g)).
 
 (* one iteration of try_index's loop *)
 Definition index_step (g : graph) (nx : node) (id : ident) : option node :=
